@@ -59,6 +59,56 @@ TRIAGED = {
 }
 
 
+# Premises of triage reasons that can be re-checked on every run: (consumer function, iterated parameter) pairs whose loops over that
+# parameter must consist of per-key min/max updates with loop-invariant arguments.
+BNDS = "smt_encoding.instructions.instruction_bounds_with_dependencies"
+TRIAGE_PREMISES = {
+    (f"{BNDS}.InstructionBoundsWithDependencies.__init__",
+     "list(set((instruction.id for instruction in instructions if instruction.instruction_subset == InstructionSubset.store)).difference(dependendent_mem_ids))"):
+        [(f"{BNDS}.initialize_bound_positions_for_ub", "maximal_mem_ids")],
+    ("smt_encoding.json_with_dependencies.bounds_from_instructions",
+     "list(set((instruction.id for instruction in instructions if instruction.instruction_subset == InstructionSubset.store)).difference(dependendent_mem_ids))"):
+        [(f"{BNDS}.initialize_bound_positions_for_ub", "maximal_mem_ids")],
+}
+PER_KEY_UPDATERS = {"update_current_index"}
+
+
+def _per_key_minmax(ctx):
+    """update_current_index(id, table, v): table[id] becomes [v, v] or [min(v, old_min), max(v, old_max)] — commutative and idempotent per key."""
+    f = ctx.func(f"{BNDS}.update_current_index")
+    assigns = [n for n in own_nodes(f.node) if isinstance(n, ast.Assign) and isinstance(n.targets[0], ast.Subscript)]
+    ok = len(assigns) == 2 and all(norm(a.targets[0].slice) == f.params[0] and norm(a.targets[0].value) == f.params[1] for a in assigns)
+    texts = sorted(norm(a.value).replace(" ", "") for a in assigns)
+    v = f.params[2]
+    ok = ok and f"[{v},{v}]" in texts and any(t.startswith(f"[min({v},") and f",max({v}," in t for t in texts)
+    other = [n for n in own_nodes(f.node) if isinstance(n, (ast.AugAssign, ast.Delete, ast.Global, ast.Nonlocal))]
+    return ok and not other
+
+
+def _premise_holds(ctx, qual, param):
+    f = ctx.func(qual)
+    if param not in f.params:
+        return False, f"{qual} has no parameter {param}"
+    loops = [n for n in own_nodes(f.node) if isinstance(n, ast.For) and isinstance(n.iter, ast.Name) and n.iter.id == param]
+    uses = [n for n in own_nodes(f.node) if isinstance(n, ast.Name) and n.id == param and isinstance(n.ctx, ast.Load)]
+    if len(uses) != len(loops):
+        return False, f"{param} is used other than as the iterable of a for loop"
+    if not _per_key_minmax(ctx):
+        return False, "update_current_index is no longer a per-key min/max update"
+    for l in loops:
+        lv = {x.id for x in ast.walk(l.target) if isinstance(x, ast.Name)}
+        written = {t.id for st in ast.walk(ast.Module(body=l.body, type_ignores=[])) for t in ast.walk(st)
+                   if isinstance(t, ast.Name) and isinstance(t.ctx, ast.Store)}
+        for st in l.body:
+            if not (isinstance(st, ast.Expr) and isinstance(st.value, ast.Call) and call_name(st.value) in PER_KEY_UPDATERS):
+                return False, f"the loop over {param} does more than per-key min/max updates (`{short(st, 50)}`)"
+            for a in st.value.args:
+                names = {x.id for x in ast.walk(a) if isinstance(x, ast.Name)} - lv
+                if names & written:
+                    return False, f"the update's argument `{short(a, 30)}` changes from one element to the next"
+    return True, ""
+
+
 def _reach(ctx):
     if "C13.reach" not in ctx.cache:
         roots = [ctx.func(q) for q in ROOTS]
@@ -91,6 +141,16 @@ def rule_a(ctx, out):
                         f"{s['consumer']} in {f.qual} is order-sensitive: {tri[1]}", where(f, s["node"]), rec)
             else:
                 used_triage.add(key)
+                broken = None
+                for qual, param in TRIAGE_PREMISES.get(key, []):
+                    holds, why = _premise_holds(ctx, qual, param)
+                    if not holds:
+                        broken = (qual, param, why)
+                if broken:
+                    out.bad(f"set-order:{f.qual.split('.', 1)[-1]}:{broken[0].rsplit('.', 1)[-1]}:{broken[1]}",
+                            f"{s['consumer'][:80]} in {f.qual} hands a list in set order to {broken[0]}, and {broken[2]}: the result depends on the "
+                            f"string hash seed", where(ctx.func(broken[0])), rec)
+                    continue
                 rec["triaged"] = tri[1]
                 out.ok(rec)
                 out.info.setdefault("triaged_sites", []).append({"function": f.qual, "consumer": s["consumer"][:90], "reason": tri[1]})
